@@ -7,9 +7,32 @@ invariants of steps 1–3 are in `RadixModel/Lemmas/IntentTree.lean`.
 
 The well-formedness notions below speak only about the INPUT (hashes and declared children of
 the intents, results of `validate_intent`), not about the validator's data structures.
+
+Proved (all inputs, no bounds):
+* `accept_implies_wf` — the property as stated ("accepted ONLY IF distinct, exactly one parent,
+  reachable within the maximum depth, children present, yield counts match");
+* `relationships_accept_implies_wf` — the same for `validate_intent_relationships` alone, for any
+  fuel, plus: recorded depth = length of a path from the root, recorded parent declares the child;
+* `worklist_terminates` — the step-3 loop needs at most #subintents iterations and its
+  `get_index(..).unwrap()`s never fail; `walk_fuel_mono`;
+* `placeholder_root_accepts_two_parents` — why `root ≠ PLACEHOLDER_PARENT` is a hypothesis;
+* `latest_config_no_underflow` — side condition on the compiled configuration (Generated/C35).
+
+NOT proved (the converse half of the design's `accept_iff_wf`):
+    theorem accept_iff_wf (t) (md) (rootY) (subYs) (hroot : t.root ≠ PLACEHOLDER)
+        (hlen : subYs.length = t.subs.length) (hmd : maxDepthFor t.root md = some maxDepth) :
+      (∃ r, validate t md rootY subYs = .ok r) ↔
+        (WellFormed t maxDepth ∧ (∃ ry, rootY = some ry ∧ (∀ y ∈ subYs, y ≠ none)
+           ∧ every subintent's parent summary has its key and the counts match))
+  Only `→` is a theorem (`accept_implies_wf`, restated as `accept_iff_wf_partial`). Missing for `←`:
+  uniqueness of the path length under `atMostOneParent` (so that no work-list item exceeds the
+  depth limit) and completeness of the marking loop (every reachable entry gets a depth). That a
+  well-formed tree is not rejected is explored on the implementation by the oracle key
+  `rejected-well-formed` and on the model by the correspondence run.
 -/
 import RadixModel.Model.IntentTree
 import RadixModel.Lemmas.IntentTree
+import RadixModel.Generated.C35
 
 namespace Radix.IntentTree
 
@@ -289,5 +312,141 @@ theorem placeholder_root_accepts_two_parents :
       ∧ validateRelationships t 3 = .ok r ∧ ¬ (allClaims t).Nodup :=
   ⟨⟨(false, 0), [1, 2], [⟨1, [2]⟩, ⟨2, []⟩]⟩,
     ([0, 1], [⟨1, 0, (false, 0), 1, [1]⟩, ⟨2, 1, (true, 1), 2, []⟩]), rfl, by decide, by decide⟩
+
+/-! ### Termination of the work list (step 3) -/
+
+/-- errors of steps 1, 2 and 4 are structure errors, never `outOfFuel`/`panic` -/
+def Structural (e : Err) : Prop := e ≠ .outOfFuel ∧ e ≠ .panic
+
+theorem step1_err : ∀ (subs : List Sub) (acc : List Details) (e : Err), step1 subs acc = .error e → Structural e := by
+  intro subs
+  induction subs with
+  | nil => intro acc e h; simp [step1] at h
+  | cons s rest ih =>
+    intro acc e h
+    simp only [step1] at h
+    split at h
+    · cases h; exact ⟨by simp, by simp⟩
+    · exact ih _ e h
+
+theorem claim_err {m : List Details} {p : IHash} {h : Nat} {e : Err} (hc : claim m p h = .error e) : Structural e := by
+  unfold claim at hc
+  split at hc
+  · cases hc; exact ⟨by simp, by simp⟩
+  · split at hc
+    · cases hc
+    · cases hc; exact ⟨by simp, by simp⟩
+
+theorem claimAll_err {p : IHash} : ∀ (hs : List Nat) (m : List Details) (acc : List Nat) (e : Err),
+    claimAll m p hs acc = .error e → Structural e := by
+  intro hs
+  induction hs with
+  | nil => intro m acc e h; simp [claimAll] at h
+  | cons x rest ih =>
+    intro m acc e h
+    simp only [claimAll] at h
+    cases hc : claim m p x with
+    | error e' => rw [hc] at h; cases h; exact claim_err hc
+    | ok r => obtain ⟨m', i⟩ := r; rw [hc] at h; exact ih _ _ e h
+
+theorem step2b_err : ∀ (subs : List Sub) (m : List Details) (e : Err), step2b m subs = .error e → Structural e := by
+  intro subs
+  induction subs with
+  | nil => intro m e h; simp [step2b] at h
+  | cons s rest ih =>
+    intro m e h
+    simp only [step2b] at h
+    cases hc : claimAll m (true, s.hash) s.children [] with
+    | error e' => rw [hc] at h; cases h; exact claimAll_err _ _ _ _ hc
+    | ok r => obtain ⟨m', cs⟩ := r; rw [hc] at h; exact ih _ e h
+
+theorem step4_err {m : List Details} {e : Err} (h : step4 m = .error e) : Structural e := by
+  unfold step4 at h
+  split at h
+  · cases h; exact ⟨by simp, by simp⟩
+  · cases h
+
+/-- **worklist_terminates.** If the root hash is not the placeholder, the depth-marking loop of
+step 3 finishes within `#subintents` iterations: with fuel `> #subintents` the model never runs
+out of fuel, and the only way `validate_intent_relationships` can panic is the `usize` underflow
+of `max_subintent_depth - 1` (the `get_index(..).unwrap()`s of the loop never fail). -/
+theorem worklist_terminates (t : Tree) (maxSubintentDepth fuel : Nat) (hroot : t.root ≠ PLACEHOLDER)
+    (hf : t.subs.length < fuel) :
+    validateRelationshipsFuel fuel t maxSubintentDepth ≠ .error .outOfFuel
+    ∧ (validateRelationshipsFuel fuel t maxSubintentDepth = .error .panic →
+        maxDepthFor t.root maxSubintentDepth = none) := by
+  unfold validateRelationshipsFuel
+  cases h1 : step1 t.subs [] with
+  | error e => have := step1_err _ _ _ h1; exact ⟨by simp [this.1], by intro h; cases h; exact absurd rfl this.2⟩
+  | ok m1 =>
+    simp only
+    cases h2a : claimAll m1 t.root t.rootChildren [] with
+    | error e => have := claimAll_err _ _ _ _ h2a; exact ⟨by simp [this.1], by intro h; cases h; exact absurd rfl this.2⟩
+    | ok r =>
+      obtain ⟨m2a, rcs⟩ := r
+      simp only
+      cases h2b : step2b m2a t.subs with
+      | error e => have := step2b_err _ _ _ h2b; exact ⟨by simp [this.1], by intro h; cases h; exact absurd rfl this.2⟩
+      | ok m2 =>
+        simp only
+        cases hmd : maxDepthFor t.root maxSubintentDepth with
+        | none => exact ⟨by simp, fun _ => rfl⟩
+        | some maxDepth =>
+          simp only
+          obtain ⟨s2, hco, hrc, _⟩ := steps12_spec hroot h1 h2a h2b
+          obtain ⟨inv, hlen⟩ := tinv_init s2 hco hrc
+          obtain ⟨hw1, hw2⟩ := walk_terminates maxDepth fuel m2 _ inv (by omega)
+          cases h3 : walk maxDepth fuel m2 (pushChildren rcs 1 []) with
+          | error e =>
+            rw [h3] at hw1 hw2
+            refine ⟨by intro h; cases h; exact hw1 rfl, by intro h; cases h; exact absurd rfl hw2⟩
+          | ok m3 =>
+            simp only
+            cases h4 : step4 m3 with
+            | error e => have := step4_err h4; exact ⟨by simp [this.1], by intro h; cases h; exact absurd rfl this.2⟩
+            | ok u => exact ⟨by simp, by intro h; cases h⟩
+
+/-- More fuel never changes a result that was reached without running out. -/
+theorem walk_fuel_mono (maxDepth : Nat) : ∀ (fuel : Nat) (m : List Details) (wl : List (Nat × Nat)),
+    walk maxDepth fuel m wl ≠ .error .outOfFuel →
+    walk maxDepth (fuel + 1) m wl = walk maxDepth fuel m wl := by
+  intro fuel
+  induction fuel with
+  | zero => intro m wl h; simp [walk] at h
+  | succ fuel ih =>
+    intro m wl h
+    cases wl with
+    | nil => simp [walk]
+    | cons x wl =>
+      obtain ⟨i, d⟩ := x
+      simp only [walk] at h ⊢
+      cases hmi : m[i]? with
+      | none => simp
+      | some e =>
+        simp only [hmi] at h ⊢
+        by_cases hgt : d > maxDepth
+        · simp [hgt]
+        · simp only [hgt, if_false] at h ⊢
+          exact ih _ _ h
+
+/-- The configured depth of the current protocol version does not underflow for a subintent root
+(re-checked against the compiled tree through `Generated/C35.lean`). -/
+theorem latest_config_no_underflow (root : IHash) :
+    maxDepthFor root Radix.Generated.C35.MAX_SUBINTENT_DEPTH_LATEST ≠ none := by
+  unfold maxDepthFor
+  have : Radix.Generated.C35.MAX_SUBINTENT_DEPTH_LATEST ≠ 0 := by decide
+  by_cases h : root.1 = true
+  · simp [h, this]
+  · simp [h]
+
+/-- The proved half of the design's `accept_iff_wf` (see the header for the full statement). -/
+theorem accept_iff_wf_partial (t : Tree) (maxSubintentDepth : Nat) (rootY : Option Yields)
+    (subYs : List (Option Yields)) (hroot : t.root ≠ PLACEHOLDER) :
+    (∃ r, validate t maxSubintentDepth rootY subYs = .ok r) →
+      ∃ maxDepth, maxDepthFor t.root maxSubintentDepth = some maxDepth ∧ WellFormed t maxDepth
+        ∧ (∃ ry, rootY = some ry) ∧ (∀ y ∈ subYs, y ≠ none) := by
+  rintro ⟨⟨rootCs, m⟩, h⟩
+  obtain ⟨maxDepth, ry, h1, h2, h3, h4, _⟩ := accept_implies_wf t maxSubintentDepth rootY subYs hroot rootCs m h
+  exact ⟨maxDepth, h1, h2, ⟨ry, h3⟩, h4⟩
 
 end Radix.IntentTree
